@@ -6,7 +6,7 @@ from fractions import Fraction
 import z3
 
 from vlib import env, ucase
-from vlib.zrun import explore_and_prove, uf_prover, eq_term, concretize, pyrepr
+from vlib.zrun import twin_verdict, explore_and_prove, uf_prover, eq_term, concretize, pyrepr
 from vlib.zsym import Real, Int, Const, ZBackend, lift, model_value
 
 META = {
@@ -210,7 +210,7 @@ def task_warn(n):
     o = explore_and_prove(fn, assum, goal)
     ot = explore_and_prove(fn, assum, lambda p: goal(p, True), max_fail=1)
     res = dict(engine="Z", functions=[env.describe(ionic_strength)], obligations=o.obligations, discharged=o.discharged, violations=[],
-               inconclusive=list(o.inconclusive), queries=o.queries, paths=o.paths, solver_s=o.solver_s, twin="violated" if ot.failed else "passed",
+               inconclusive=list(o.inconclusive), queries=o.queries, paths=o.paths, solver_s=o.solver_s, twin=twin_verdict(ot),
                bounds="%d ions, charges -4..4 symbolic, molalities any positive reals" % n,
                sample={"molalities": "symbolic", "charges": "symbolic ints", "oracle": "warned => net != 0; not warned => |net| <= 1e-12*sum(b z^2)"})
     for p, m, g in o.failed[:1]:
